@@ -1,6 +1,7 @@
 """C13 - Loading a savefile does not depend on the order of its lines (narrow: dependency keys)."""
 import re
 from .. import astlib as A
+from .. import fdeval as FD
 from ..facts import AnalysisBroken
 from ..rules import metakeys as MK
 
@@ -194,6 +195,16 @@ def run(ctx):
     self_edge_obligation(ctx, u, "R13.6")
     rewalk_obligation(ctx, u, "R13.7")
     scan_evaluation(ctx, u, "R13.8")
+    # ---- R13.9: the topological sort itself, interpreted on small graphs
+    ctx.rule("R13.9", "KAHN-EVALUATED: the topological sort of dispatch_printed_messages (in-degree table, queue of ready messages, release loop), interpreted on nine dependency graphs - among them a message reached over two edges "
+             "that follow each other in the vector, a dependee listed twice, a diamond - puts every message exactly once into the order and in front of everything that waits for it")
+    from ..rules import kahn as KH
+    try:
+        bad9, n9 = KH.check(u)
+    except FD.Unknown as e:
+        raise AnalysisBroken("R13.9: the topological sort is not evaluable: %s" % e)
+    ctx.ob("R13.9", "topological sort, evaluated", not bad9, site=A.where(u.function("dispatch_printed_messages")), detail={"graphs": n9, "mismatches": bad9[:4]},
+           key="R13.9:sort", what="the topological sort of the saved lines is wrong on %s" % ["%s: order %s, too early %s" % (b_["graph"], b_["order"], b_["dispatched_before_what_they_wait_for"]) for b_ in bad9[:3]])
 
 
 def _inside13(root, node):
